@@ -354,6 +354,7 @@ fn ledger_scenarios(tier: Tier, extra_probes: &dyn Fn(&Cfg, &Menu) -> Vec<Act>) 
     mk("B11/base-also-convertible", overlap(Cfg::new(0, 2, ("0.25", "0.25"), "R0")), menu_p1(1, 1), &mut v);
     mk("B11/quote-is-base", quote_is_base(Cfg::new(0, 2, ("0.25", "0.25"), "R0")), menu_p1(1, 1), &mut v);
     mk("B11/P0/rates-1.25-1.5", Cfg::new(0, 1, ("1.25", "1.5"), "R0"), Menu { sizes: vec![4, 10], match_sizes: vec![1, 4, 10], ..menu_p0(1, 1, vec!["1", "2"]) }, &mut v);
+    v.extend(marker_family(extra_probes));
     mk("B11/P1/F1/R5", Cfg::new(0, 2, ("0.25", "0.25"), "R5"), menu_p1(1, 1), &mut v);
     mk("B11/P1/F1/R6", Cfg::new(0, 2, ("0.25", "0.25"), "R6"), menu_p1(1, 1), &mut v);
     {
@@ -499,6 +500,52 @@ pub fn value_sweep(tier: Tier) -> Vec<Scenario> {
     v
 }
 
+/// all eight restricted / unrestricted-marker assignments of (base, conv, quote) on the smallest book
+pub fn marker_family(probes_of: &dyn Fn(&Cfg, &Menu) -> Vec<Act>) -> Vec<Scenario> {
+    let mut v = vec![];
+    for a in ['r', 'u'] {
+        for b in ['r', 'u'] {
+            for c in ['r', 'u'] {
+                let spec: String = [a, b, c].iter().collect();
+                let cfg = with_markers(Cfg::new(0, 1, ("0.25", "0.25"), "R0"), &spec);
+                let mut menu = menu_p0(1, 1, vec!["2", "4"]);
+                menu.sizes = vec![1, 2];
+                menu.match_sizes = vec![1, 2];
+                let p = probes_of(&cfg, &menu);
+                v.push(scen(&format!("B11/P0/F1/{spec}"), cfg, menu, p));
+            }
+        }
+    }
+    v
+}
+
+/// books at high price precision (increment 10^precision), for the admission rules
+pub fn high_precision(probes_of: &dyn Fn(&Cfg, &Menu) -> Vec<Act>, precisions: &[u32]) -> Vec<Scenario> {
+    let mut v = vec![];
+    for p in precisions {
+        let inc = 10u128.pow(*p);
+        let leak = |s: String| -> &'static str { Box::leak(s.into_boxed_str()) };
+        let prices: Vec<&'static str> = vec![leak(crate::c13::price_str(1, *p)), leak(crate::c13::price_str(inc + 1, *p))];
+        let cfg = Cfg::new(*p as u128, inc, ("0.25", "0.25"), "R0");
+        let menu = Menu {
+            ask_slots: 1,
+            bid_slots: 1,
+            prices,
+            sizes: vec![inc, 2 * inc],
+            match_sizes: vec![inc],
+            reject_sizes: vec![],
+            ask_bases: vec!["base", "conv"],
+            two_approvers: false,
+            modifies: vec![],
+            quotes: vec![],
+            migrates: vec![],
+        };
+        let pr = probes_of(&cfg, &menu);
+        v.push(scen(&format!("B11/p{p}/inc1e{p}"), cfg, menu, pr));
+    }
+    v
+}
+
 fn no_probes(_: &Cfg, _: &Menu) -> Vec<Act> {
     vec![]
 }
@@ -633,6 +680,7 @@ pub fn plan(prop: &str, tier: Tier) -> Plan {
             mk("B11/multi-denom/nrnur", with_markers(multi(Cfg::new(0, 2, ("0.25", "0.25"), "R0")), "nrnur"), menu_multi(1, 1), &mut v);
             v.push(with_legacy_seed(scen("B11/P1/F1/R0", Cfg::new(0, 2, ("0.25", "0.25"), "R0"), menu_p1(1, 1), vec![])));
             v.extend(upgrade_family(&no_probes, true));
+            v.extend(marker_family(&no_probes));
             if th {
                 v.extend(value_sweep(tier));
                 mk("B22/P1/F1/R0", Cfg::new(0, 2, ("0.25", "0.25"), "R0"), menu_p1(2, 2), &mut v);
@@ -667,6 +715,7 @@ pub fn plan(prop: &str, tier: Tier) -> Plan {
             mk("B11/multi-denom", multi(Cfg::new(0, 2, ("0.25", "0.25"), "R0")), small(menu_multi(1, 1)), &mut v);
             mk("B11/P1/rates-0.250-0.10", Cfg::new(0, 2, ("0.250", "0.10"), "R0"), small(menu_p1(1, 1)), &mut v);
             mk("B11/P0/rates-0.0100-0.010", Cfg::new(0, 1, ("0.0100", "0.010"), "R0"), small(Menu { sizes: vec![500, 1000], ..menu_p0(1, 1, vec!["2", "3"]) }), &mut v);
+            v.extend(high_precision(&|c, m| probes::creates(c, m, k), if th { &[3, 6, 9, 12, 15, 18] } else { &[6, 18] }));
             mk("B11/P1/F1/attrs-ask-only", with_attrs(Cfg::new(0, 2, ("0.25", "0.25"), "R0"), &["kyc"], &[]), small(menu_p1(1, 1)), &mut v);
             mk("B11/P1/F1/attrs-bid-only", with_attrs(Cfg::new(0, 2, ("0.25", "0.25"), "R0"), &[], &["kyc"]), small(menu_p1(1, 1)), &mut v);
             mk("B11/P1/F1/attrs-listed-twice", with_attrs(Cfg::new(0, 2, ("0.25", "0.25"), "R0"), &["kyc", "kyc"], &["acc", "acc"]), small(menu_p1(1, 1)), &mut v);
